@@ -202,6 +202,16 @@ def replay(rp):
                 return False
             ok, _, _ = oracle_sh(s, vlib.b64d(r["out_b64"]), cwd)
             return ok
+        if rp.get("kind") == "shlist":
+            r = vlib.yqh_batch([{"op": "eval", "expr": "[.[] | @sh]", "input": json.dumps(rp["list"]), "in": "json", "out": "json", "indent": 0}])[0]
+            if "out_b64" not in r or r.get("err"):
+                return True
+            outs = json.loads(vlib.b64d(r["out_b64"]))
+            for x, o in zip(rp["list"], outs):
+                ok, _, _ = oracle_sh(x, o.encode(), cwd)
+                if not ok and x != "":
+                    return False
+            return True
         if rp.get("kind") == "shellvars_yaml":
             r = vlib.yqh_batch([{"op": "eval", "expr": ".", "input": rp["yaml"], "in": "yaml", "out": "shell"}])[0]
             if "out_b64" not in r or r.get("err"):
@@ -276,6 +286,39 @@ def run(chk):
         chk.extra["sh_strings"] = len(strings)
         chk.extra["sh_disagreements"] = len(disagreements)
 
+        # ---- several strings through ONE `@sh` in one evaluation (no quoting state may carry over from one match to the
+        #      next): each element of `[.[] | @sh]` must expand to its own string
+        lists = []
+        for _ in range(2000 if thorough else 250):
+            lists.append([chk.rng.choice(strings) if chk.rng.random() < 0.6 else chk.rng.choice(PAYLOADS) for _ in range(chk.rng.randrange(2, 5))])
+        lresp = vlib.yqh_parallel([{"op": "eval", "expr": "[.[] | @sh]", "input": json.dumps(l), "in": "json", "out": "json", "indent": 0} for l in lists])
+        nl = 0
+        for l, r in zip(lists, lresp):
+            if any("\x00" in x or not x.isprintable() and "\n" not in x and False for x in l):
+                continue
+            if r is None or "out_b64" not in r or r.get("err") or r.get("panic"):
+                continue
+            try:
+                outs = json.loads(vlib.b64d(r["out_b64"]))
+            except Exception:
+                continue
+            if not isinstance(outs, list) or len(outs) != len(l):
+                continue
+            for x, o in zip(l, outs):
+                if "\x00" in x or any(ord(ch) > 0xD7FF and ord(ch) < 0xE000 for ch in x):
+                    continue
+                d = tempfile.mkdtemp(prefix="c17l_", dir=cwd)
+                for f in ("a", "b", "ab"):
+                    open(os.path.join(d, f), "w").close()
+                ok, fields, pwned = oracle_sh(x, o.encode("utf-8", "surrogatepass") if isinstance(o, str) else b"", d)
+                shutil.rmtree(d, ignore_errors=True)
+                nl += 1
+                chk.count(("shlist", json.dumps(l), x), nontrivial=True)
+                if not ok and not (x == "" and chk.is_known("sh-empty")) and len(chk.violations) < 8:
+                    chk.violation({"kind": "shlist", "list": l, "s": x, "impl_out": o, "executed_command": pwned}, True,
+                                  "one `@sh` over several strings: an element's output does not expand to that element")
+        chk.extra["sh_list_elements"] = nl
+
         # ---------------- spec validation: sh_words vs /bin/sh on arbitrary words ----------------
         rng = chk.rng
         alpha = ["'", "\\", "\"", " ", "a", "b", "=", "%", "-", "\n", "\t", ":", "x"]
@@ -306,6 +349,23 @@ def run(chk):
         # ---------------- -o=shell ----------------
         docs = [gen_doc(chk.rng) for _ in range(4000 if thorough else 400)]
         docs += [{"a-b": "1", "a_b": "2"}, "", "x y", {"": ""}, {"0": "z"}, [["a"], {"k": "'"}], {"a": {"b": ["c", "d'e"]}}]
+        # keys that compatibility normalisation (NFKD) rewrites -- fullwidth `$ ( ) ;`, ideographic space, ligatures, circled
+        # digits: judged by the sourcing oracle only (the model takes NFKD as a parameter)
+        nfkd_docs = []
+        NF = ["\uff04", "\uff08", "\uff09", "\uff1b", "\u3000", "\ufb01", "\u2460", "\uff41", "\uff10", "\u00e9", "\u212b", "\uff40", "\uff5c", "\uff06"]
+        for _ in range(600 if thorough else 80):
+            k = "".join(chk.rng.choice(NF + ["a", "_", "1", "touch PWNED", "x"]) for _ in range(chk.rng.randrange(1, 6)))
+            nfkd_docs.append({k: chk.rng.choice(["v", "$(touch PWNED)", "a b"]), "z": {k + "q": "1"}})
+        nresp = vlib.yqh_parallel([{"op": "shellvars", "input": json.dumps(d)} for d in nfkd_docs])
+        for d, r in zip(nfkd_docs, nresp):
+            if r is None or "out_b64" not in r or r.get("err") or r.get("panic"):
+                continue
+            out = vlib.b64d(r["out_b64"])
+            ok, why = source_oracle(d, out, cwd)
+            chk.count(("svnfkd", json.dumps(d)), nontrivial=True)
+            if not ok and len(chk.violations) < 8:
+                chk.violation({"kind": "shellvars", "doc": d, "impl_out": out.decode("utf-8", "replace"), "why": why}, True,
+                              "sourcing the -o=shell output does not define the expected variables: " + why)
         resp = vlib.yqh_parallel([{"op": "shellvars", "input": json.dumps(d)} for d in docs])
         sv_cases, sv_docs = [], []
         for d, r in zip(docs, resp):
